@@ -24,8 +24,12 @@ type checkCfg struct {
 	// SelftestFrom: first run index of the determinism self-tests (quick tier numbering), so that
 	// they cover the seeded families of an engine whose first runs walk an enumerated list
 	SelftestFrom int
-	TimeMeasure  string // what "simulated time" means for this engine
-	StateRule    string // distinct-state measure
+	// GenSeparately: workers generate the cases of a chunk in a sub-process and serve one chunk
+	// per process, so that an executing process has not run any library code before its first
+	// simulation starts
+	GenSeparately bool
+	TimeMeasure   string // what "simulated time" means for this engine
+	StateRule     string // distinct-state measure
 }
 
 var checks = map[string]*checkCfg{
@@ -97,17 +101,18 @@ func init() {
 
 func init() {
 	checks["C17"] = &checkCfg{
-		Property: "C17", Engine: "schedsim", Level: "exploration", Instrument: true, Race: true,
-		Runs: map[string]int{"quick": 1920, "thorough": 64000}, Chunk: 8, RunTimeoutS: 300,
-		Rule: "one case = one simulation: 2-6 (thorough: up to 64) tasks, real goroutines, share 1-3 freshly parsed corpus fonts (TrueType, CFF, CFF2, variable, AAT, bitmap, SVG) and run seeded programs over their own faces/shapers/buffers/segmenters/wrappers/font maps plus read-only calls on the shared *font.Font, under a schedule decided by the case: sweep plans (runs come in blocks of 16 that share fonts, programs and the parked task A; A is parked at 16 evenly spaced points of its program while all other tasks run to completion, then resumes), random plans (1-12 seeded switch points, some clustered inside one pair of calls) and sequential plans. The race detector sees the tasks as concurrent for their whole lifetime (the hand-off creates no happens-before edge). distinct = distinct hash of the case; non-trivial = at least one hand-off landed inside a library call (between two tasks, not at task start/end).",
+		Property: "C17", Engine: "schedsim", Level: "exploration", Instrument: true, Race: true, GenSeparately: true,
+		Runs: map[string]int{"quick": 1920, "thorough": 64000}, Chunk: 4, RunTimeoutS: 300,
+		Rule: "one case = one simulation: 2-6 (thorough: up to 64) tasks, real goroutines, share 1-3 freshly parsed corpus fonts (TrueType, CFF, CFF2, variable, AAT, bitmap, SVG) and run seeded programs over their own faces/shapers/buffers/segmenters/wrappers/font maps (a quarter of the simulations also install 2-4 corpus fonts as system fonts in a scratch directory, so that per-task font maps call UseSystemFonts and load faces lazily from the shared global index) plus read-only calls on the shared *font.Font, under a schedule decided by the case: sweep plans (runs come in blocks of 16 that share fonts, programs and the parked task A; A is parked at 16 evenly spaced points of its program while all other tasks run to completion, then resumes), random plans (1-12 seeded switch points, some clustered inside one pair of calls) and sequential plans. The race detector sees the tasks as concurrent for their whole lifetime (the hand-off creates no happens-before edge). distinct = distinct hash of the case; non-trivial = at least one hand-off landed inside a library call (between two tasks, not at task start/end).",
 		Assumptions: []string{
 			"the Go race detector's happens-before model decides 'data race'; a conflicting access is only reported while the earlier one is inside the other goroutine's history window (calibrated with the canary on every invocation; sweep plans park tasks so that every part of a program is within the window of some park point of its block)",
 			"GOMAXPROCS=1 and asyncpreemptoff=1: the physical interleaving is the plan's; hardware memory-model effects are not executed",
 			"solo reference runs use separately parsed fonts, so no first-use memo of the shared fonts is filled before the concurrent phase",
-			"operations that block on real synchronisation (UseSystemFonts -> sync.Once) are not part of task programs",
+			"UseSystemFonts (process-global index behind sync.Once) is part of task programs with switching suspended for its duration (a task parked inside the Once would block the others for ever); the tasks remain concurrent for the race detector, and the caller is switched away from right after it in most such runs",
+			"lazily initialised package-level state is only unfilled the first time a process meets it: cases are generated in a sub-process, the coordinator calls no library lookup before the tasks, non-sweep plans run the concurrent phase before the solo reference runs, and every chunk of 4 runs gets a fresh worker process",
 		},
-		Real:        []string{"the whole library, instrumented with yield points at every function entry and loop head (go/ast text splice), built with -race", "font.NewFace/Face queries", "harfbuzz.NewFont/Buffer.Shape", "shaping.HarfbuzzShaper/Segmenter/LineWrapper", "fontscan.FontMap (AddFace/SetQuery/ResolveFace)"},
-		Stub:        []string{"the goroutine scheduler (cooperative baton, seeded plan)", "logger (no-op)"},
+		Real:        []string{"the whole library, instrumented with yield points at every function entry and loop head (go/ast text splice), built with -race", "font.NewFace/Face queries", "harfbuzz.NewFont/Buffer.Shape", "shaping.HarfbuzzShaper/Segmenter/LineWrapper", "fontscan.FontMap (AddFace/SetQuery/ResolveFace, UseSystemFonts over a scratch font directory)"},
+		Stub:        []string{"the goroutine scheduler (cooperative baton, seeded plan)", "system font directories (hook VerifFontDirs -> scratch tmpfs directory)", "logger (no-op)"},
 		TimeMeasure: "ticks = instrumented yield points executed during the concurrent phases",
 		StateRule:   "distinct unordered pairs of operation kinds that ran in different tasks of one simulation, and (plan kind, #tasks bucket)",
 	}
